@@ -390,6 +390,9 @@ func runHarness(verifDir string, spec HarnessSpec, seed int, thorough bool) (*Ha
 	e := newEngine(prog, pkgs, spec, solver)
 	e.harness = spec.Name
 	dbgEngine = e
+	if os.Getenv("GOSYM_FNSTATS") != "" {
+		e.fnStats = map[string][3]int{}
+	}
 	if thorough {
 		e.smtDir = filepath.Join(verifDir, "out", "smt")
 	}
@@ -488,6 +491,23 @@ func runHarness(verifDir string, spec HarnessSpec, seed int, thorough bool) (*Ha
 		res.Inconcl = append(res.Inconcl, fmt.Sprintf("%d solver errors (first: %s)", len(solver.Errors), solver.Errors[0]))
 	}
 	res.Extra = e.extra
+	if e.fnStats != nil {
+		type kv struct {
+			k string
+			v [3]int
+		}
+		var l []kv
+		for k, v := range e.fnStats {
+			l = append(l, kv{k, v})
+		}
+		sort.Slice(l, func(i, j int) bool { return l[i].v[1] > l[j].v[1] })
+		for i, x := range l {
+			if i > 25 && x.v[2] <= x.v[0] {
+				continue
+			}
+			fmt.Fprintf(os.Stderr, "%-70s calls=%d paths=%d merged=%d\n", x.k, x.v[0], x.v[1], x.v[2])
+		}
+	}
 	res.WallS = time.Since(t0).Seconds()
 	sort.SliceStable(res.Obligations, func(i, j int) bool { return res.Obligations[i].ID < res.Obligations[j].ID })
 	return res, nil
